@@ -1,6 +1,10 @@
 import FranzVerif.Model.Group
 import FranzVerif.Proof.Group
-/-! C08 — group autocommit never skips records (at-least-once). Theorems over ALL accepted histories of `Model.Group`. -/
+import FranzVerif.Proof.GroupCommit
+/-! C08 — group autocommit never skips records (at-least-once). Theorems over ALL accepted histories of `Model.Group`.
+Both statements hold as first written; the observables are unchanged (`committedUpTo`'s `foldl max 0` over all
+successful commits equals the monitor's running maximum, `processedUpTo`'s "a `pollStart m` later in the same
+prefix" equals the monitor's `eligible` list: `Proof.Group.Inv.comm`, `Inv.elig`). -/
 namespace Props.C08
 open Model.Group Proof.Group
 
@@ -9,7 +13,11 @@ then started another poll — or what the group had already committed before. -/
 theorem commit_covers_only_processed (c : Cfg) (h₁ h₂ : List Ev) (m : Mem) (p off : Nat)
     (hacc : (run c {} (h₁ ++ Ev.commit m p off true :: h₂)).isSome) :
     off ≤ max (processedUpTo m p h₁) (committedUpTo p h₁) := by
-  sorry
+  obtain ⟨s, hs⟩ := isSome_run hacc
+  obtain ⟨s₁, hr₁, hchk, _⟩ := run_split hs
+  have hi := inv_of_run hr₁
+  have := commit_check hchk
+  rwa [hi.elig, hi.comm] at this
 
 /-- After any sequence of joins, leaves, restarts and rebalances, every record below the group's final
 committed offset was returned to some member. -/
@@ -17,6 +25,59 @@ theorem final_commit_covers_only_returned (c : Cfg) (h : List Ev) (s : St) (hacc
     (hcomplete : isIncomplete h = false) (p : Nat) (f : Int) (hf : Ev.finalCommitted p f ∈ h)
     (id : Id) (off : Nat) (hp : (id, p, off) ∈ producedOf h) (hlt : (off : Int) < f) :
     ∃ m, Ev.returned m p off id ∈ h := by
-  sorry
+  obtain ⟨s₁, hr₁, hchk⟩ := run_snoc hacc
+  have hi := inv_of_run hr₁
+  have hfin : (p, f) ∈ s₁.finals := (hi.finals (p, f)).2 hf
+  have hprod : (id, p, off) ∈ s₁.prod := by rw [hi.prod]; exact List.mem_reverse.2 hp
+  obtain ⟨r, hr, r1, r2, r3⟩ := quiesce_check hchk (by rw [hi.incomplete]; exact hcomplete) _ hfin _ hprod rfl hlt
+  refine ⟨r.1, ?_⟩
+  have := (hi.ret r).1 hr
+  simpa only [r1, r2, r3] using this
+
+/-- Non-vacuity: two members, partition 0 with records 10, 11, 12 at offsets 0, 1, 2 and partition 1 with record
+20 at offset 0. Member 1 polls records 10 and 11, polls again (now offsets < 2 are processed) and commits 2 —
+the shape of `commit_covers_only_processed`; a commit of 1 (below) is fine too. After a rebalance member 2
+re-commits the group's committed offset 2 without having polled anything, polls record 12, polls again and
+commits 3; member 1 polls record 20 of partition 1, polls again, commits 1 for partition 1. The final committed
+offsets 3 and 1 lie past returned records only — the shape of `final_commit_covers_only_returned`. -/
+example : accepts { parts := 2 }
+    [.produced 10 0 0, .produced 11 0 1, .produced 12 0 2, .produced 20 1 0,
+     .join 1, .assignStart 1 [0, 1], .assignEnd 1,
+     .pollStart 1, .returned 1 0 0 10, .returned 1 0 1 11, .pollEnd 1,
+     .pollStart 1, .pollEnd 1, .commit 1 0 1 true, .commit 1 0 2 true,
+     .join 2, .revokeStart 1 [0], .revokeEnd 1, .assignStart 2 [0], .assignEnd 2,
+     .commit 2 0 2 true,
+     .pollStart 2, .returned 2 0 2 12, .pollEnd 2, .pollStart 2, .pollEnd 2, .commit 2 0 3 true,
+     .pollStart 1, .returned 1 1 0 20, .pollEnd 1, .pollStart 1, .pollEnd 1, .commit 1 1 1 true,
+     .finalCommitted 0 3, .finalCommitted 1 1, .quiesce] = true := by decide
+
+/-- The observables on the prefix before `commit 1 0 2 true`: offsets below 2 processed, 1 committed. -/
+example : processedUpTo 1 0
+    [.produced 10 0 0, .produced 11 0 1, .pollStart 1, .returned 1 0 0 10, .returned 1 0 1 11, .pollEnd 1,
+     .pollStart 1, .pollEnd 1, .commit 1 0 1 true] = 2 := by decide
+example : committedUpTo 0
+    [.produced 10 0 0, .produced 11 0 1, .pollStart 1, .returned 1 0 0 10, .returned 1 0 1 11, .pollEnd 1,
+     .pollStart 1, .pollEnd 1, .commit 1 0 1 true] = 1 := by decide
+
+/-- A commit covering records of a poll that was not followed by another poll: refused. -/
+example : accepts { parts := 2 }
+    [.produced 10 0 0, .produced 11 0 1, .join 1, .assignStart 1 [0, 1], .assignEnd 1,
+     .pollStart 1, .returned 1 0 0 10, .returned 1 0 1 11, .pollEnd 1, .commit 1 0 2 true] = false := by decide
+
+/-- A commit beyond the processed records (3 > 2): refused; the same commit failing (`ok = false`) is not judged. -/
+example : accepts { parts := 2 }
+    [.produced 10 0 0, .produced 11 0 1, .join 1, .assignStart 1 [0, 1], .assignEnd 1,
+     .pollStart 1, .returned 1 0 0 10, .returned 1 0 1 11, .pollEnd 1, .pollStart 1, .pollEnd 1,
+     .commit 1 0 3 true] = false := by decide
+example : accepts { parts := 2 }
+    [.produced 10 0 0, .produced 11 0 1, .join 1, .assignStart 1 [0, 1], .assignEnd 1,
+     .pollStart 1, .returned 1 0 0 10, .returned 1 0 1 11, .pollEnd 1, .pollStart 1, .pollEnd 1,
+     .commit 1 0 3 false] = true := by decide
+
+/-- A final committed offset (2) past record 11 at offset 1 that nobody returned: refused. -/
+example : accepts { parts := 2 }
+    [.produced 10 0 0, .produced 11 0 1, .join 1, .assignStart 1 [0, 1], .assignEnd 1,
+     .pollStart 1, .returned 1 0 0 10, .pollEnd 1, .pollStart 1, .pollEnd 1, .commit 1 0 1 true,
+     .finalCommitted 0 2, .quiesce] = false := by decide
 
 end Props.C08
